@@ -168,7 +168,7 @@ CHECKS = {
                 "vacancy set; views re-index the pattern for ALL index selections (repeated, reversed); repeat tiles it for any shape (exists- and "
                 "mod-form); equality iff same root and same vacancy set. Tied to the code by evaluating the model over an exact-rational Grid model "
                 "on every vacancy subset of small grids x a list of second operations and on random chains up to length 8; the property's "
-                "statements are also evaluated directly on the implementation, and kernel-level statements are compared with the methods.",
+                "statements are also evaluated directly on the implementation, and kernel-level statements are compared with the methods. Class FilledGrid (fill, vacate, get_view, shift, scale, repeat, positions, __eq__, __hash__) is ALSO translated from source on every run (harness/gen/filled_translate.py, fail-closed) and proved equal to the hand model (build/C12/Gen_C12_src.v), so the 13 theorems hold of the methods as written.",
         "note": NOTE_COMMON + " Floats are modelled by exact rationals; generators use dyadic values so both coincide. bloqade.geometry.Grid is modelled (GridQ), not verified.",
         "technique": "Coq proofs over a parametric model + vm_compute correspondence over an exact-rational grid model",
     },
